@@ -274,6 +274,9 @@ func c02Stream(dir string, seed int64, tier string) {
 		case shLoad:
 			return fmt.Sprintf("%s %s, %d(%s)", name, regNames[rd], imm, regNames[rs1])
 		case shStore:
+			if name == "sh" { // the simulator's own three-operand syntax for sh
+				return fmt.Sprintf("%s %s, %d, %s", name, regNames[rs2], imm, regNames[rs1])
+			}
 			return fmt.Sprintf("%s %s, %d(%s)", name, regNames[rs2], imm, regNames[rs1])
 		case shBr2:
 			return fmt.Sprintf("%s %s, %s, %s", name, regNames[rs1], regNames[rs2], label)
